@@ -123,7 +123,7 @@ pub fn run(op: &str, args: &[&str]) -> Option<String> {
                 show_hex(&a.as_bytes()),
                 show_hex(a.to_string().as_bytes()),
                 show_hex(a.as_hex().as_bytes()),
-                show_hex(&serialize(&a)),
+                crate::ops_codec::ser_checked_hex(&a),
                 show_hex(a.encode_hex::<String>().as_bytes()),
                 show_hex(a.encode_hex_upper::<String>().as_bytes()),
                 show_hex(a.addr_type.to_string().as_bytes())
